@@ -336,4 +336,34 @@ def rule_borrowed_r4(ctx):
     ctx.borrow(rule_eof, {"C01.EOF": "C09.BLOCKS"})
 
 
-RULES = [rule_dest, rule_rec, rule_list, rule_rm, rule_mkdir, rule_copy_client, rule_next_dir, rule_borrowed_r4]
+def rule_local_dirs(ctx):
+    p = ctx.p
+    ctx.rule("C09.LOCAL", "download creates the local directories it writes into: the parent of a downloaded file and every downloaded directory itself (empty ones included) are "
+                          "made with parents=True, exist_ok=True before anything is written there")
+    dn = p.method("Client", "download")
+    mk = [c for c in walk_no_nested(dn) if isinstance(c, ast.Call) and is_method_call(c, "mkdir", "path_io")]
+
+    def full(c):
+        kw = {k.arg: k.value for k in c.keywords}
+        return all(isinstance(kw.get(k_), ast.Constant) and kw[k_].value is True for k_ in ("parents", "exist_ok"))
+    opens = [c for c in walk_no_nested(dn) if isinstance(c, ast.Call) and is_method_call(c, "open", "path_io") and c.args]
+    for o in opens:
+        target = dsrc(p, o.args[0], dn)
+        ok = any(full(c) and c.args and dsrc(p, c.args[0], dn) == target + ".parent" and c.lineno <= o.lineno for c in mk)
+        ctx.ob("C09.LOCAL", o, f"download: the parent of `{target}` is created before the file is opened", ok,
+               "download opens the local file without creating its parent directory (parents=True, exist_ok=True) first: downloading into a directory that does not exist yet fails",
+               construct="local:file parent")
+    loops = [l for l in walk_no_nested(dn) if isinstance(l, (ast.For, ast.AsyncFor)) and any(is_self_call(c, {"list"}) for c in ast.walk(l.iter))]
+    for l in loops:
+        blk = p.parent.get(l)
+        body = next((getattr(blk, fld) for fld in ("body", "orelse") if l in getattr(blk, fld, [])), [])
+        before = body[:body.index(l)] if l in body else []
+        dest = [a.arg for a in dn.args.args][2] if len(dn.args.args) > 2 else "destination"
+        ok = any(full(c) and c.args and src(c.args[0]) == dest for s_ in before for c in walk_self(s_) if isinstance(c, ast.Call) and is_method_call(c, "mkdir", "path_io"))
+        ctx.ob("C09.LOCAL", l, "download: a directory is created locally before its children are fetched (an empty directory still appears)", ok,
+               "download does not create the local directory itself before walking the remote one: empty directories are missing from the copy", construct="local:directory itself")
+    if not opens or not loops:
+        raise Inconclusive("C09.LOCAL: the file / directory branches of Client.download were not recognised")
+
+
+RULES = [rule_dest, rule_rec, rule_list, rule_rm, rule_mkdir, rule_copy_client, rule_next_dir, rule_borrowed_r4, rule_local_dirs]
